@@ -1044,7 +1044,7 @@ def _spoil(*arrs):
             a[...] = np.nan
 
 
-def _h_query(kind, obj, dim, degrees, spoil=False):
+def _h_query(kind, obj, dim, degrees, spoil=False, basis=True):
     out = []
     for model in ("poincare", "halfspace"):
         c, r = obj.sphere_parameters(model)
@@ -1058,7 +1058,7 @@ def _h_query(kind, obj, dim, degrees, spoil=False):
             out += [np.array(c2, dtype=float), np.array(r2, dtype=float), np.cos(tr), np.sin(tr)]
             if spoil:
                 _spoil(c2, r2, th)
-        if kind != "horosphere":
+        if kind != "horosphere" and basis:
             ib = obj.ideal_basis_coords(model)
             out.append(_rows_sorted(ib))
             if spoil:
@@ -1254,7 +1254,19 @@ def run_o_intdata(inp):
             xa = np.array(x)
             return H.Segment(H.Point(xa[..., 0, :]), H.Point(xa[..., 1, :]))
         return {"segment": H.Segment, "geodesic": H.Geodesic, "horosphere": H.Horosphere}[kind](x)
-    obj, ref = build(arg, True), build(data.copy(), False)
+    # the float64 object is the reference; degenerate positions that integral coordinates hit exactly (a geodesic through
+    # the origin of the Poincare ball, an ideal endpoint at the half-space point at infinity) are not the subject here
+    try:
+        ref = build(data.copy(), False)
+        if kind == "polygon":
+            chk = [np.array(a, dtype=float) for m in ("poincare", "halfspace") for a in ref.circle_parameters(degrees=False, model=m)[:2]]
+        else:
+            chk = _h_query(kind, ref, dim, False)
+        if not all(np.all(np.isfinite(a)) and (a.size == 0 or np.max(np.abs(a)) < 50) for a in chk):
+            return {"skip": True}
+    except np.linalg.LinAlgError:
+        return {"skip": True}
+    obj = build(arg, True)
     if kind == "polygon":
         q = lambda o: [np.array(a, dtype=float) for m in ("poincare", "halfspace") for a in o.circle_parameters(degrees=inp["degrees"], model=m)[:2]] + \
             [_rows_sorted(np.array(o.get_edges().ideal_endpoint_coords("klein")))]
@@ -1262,7 +1274,9 @@ def run_o_intdata(inp):
         ib = np.array(obj.get_edges().ideal_basis, dtype=float)
         null = float(np.max(np.abs(G.mink(ib, ib)) / np.sum(ib * ib, axis=-1)))
     else:
-        got, want = _h_query(kind, obj, dim, inp["degrees"]), _h_query(kind, ref, dim, inp["degrees"])
+        # the ideal basis of a hyperplane built from its normal depends on an arbitrary choice of frame: only the sphere is compared
+        nb = kind != "hyperplane"
+        got, want = _h_query(kind, obj, dim, inp["degrees"], basis=nb), _h_query(kind, ref, dim, inp["degrees"], basis=nb)
         null = 0.0
         if kind == "segment":
             ib = np.array(obj.ideal_basis, dtype=float)
@@ -1275,6 +1289,8 @@ def judge_o_intdata(inp, obs, lr):
     tags = {"kind": inp["kind"], "dim": inp["dim"], "pack": inp["pack"], "composite": bool(inp["cnt"]), "via_points": inp["via_points"]}
     if "exc" in obs:
         return {"expected": "object built from integral data", "observed": obs, "tags": dict(tags, exc=obs["exc"])}
+    if obs.get("skip"):
+        return None
     if not (obs["same_as_float64"] and obs["null"] <= (1e-5 if inp["pack"] == "float32" else 1e-9)):
         return {"expected": "same circle / sphere parameters and ideal endpoints as the same values stored as float64; ideal endpoints lightlike",
                 "observed": obs, "tags": tags}
